@@ -793,14 +793,14 @@ def _pos_query(ctx, M, obj, s, e, flags, gen, mode):
 
 
 def _kept_model(kept, win):
-    """Witness data for the classifier of K19 (JSON-able): what the result would have to hold, and on which window."""
+    """Witness data for the classifier of K42 (JSON-able): what the result would have to hold, and on which window."""
     return {"expected_window": list(win) if win else None,
             "kept_model": [{"t": m["t"], "span": list(span(m)),
                             "children": [{"blocks": c["blocks"], "cds": c.get("cds") or []} for c in m["children"]]} for m in kept]}
 
 
 def variant_slice_mechanism(kept_model, win):
-    """K19: the result must hold a variant collection V and a gene / feature collection G that overlap on the result's chunk
+    """K42: the result must hold a variant collection V and a gene / feature collection G that overlap on the result's chunk
     (so the constructor associates them: G.incorporate_variants(V)), and either G has a transcript, CDS or feature without a
     single base inside the chunk ('sliced-child') or V has a variant without a base inside the chunk ('sliced-variant').
     Returns "sliced-child", "sliced-variant", "sliced-child+sliced-variant" or None."""
@@ -834,7 +834,7 @@ def variant_slice_mechanism(kept_model, win):
 
 
 def k19_label(exc_repr, kept_model, win):
-    """The K19 sub-mechanism that explains this EmptyLocationException, or None (then the violation stays unexplained)."""
+    """The K42 sub-mechanism that explains this EmptyLocationException, or None (then the violation stays unexplained)."""
     if not (exc_repr or "").startswith("EmptyLocationException"):
         return None
     label = variant_slice_mechanism(kept_model, win) or ""
@@ -971,11 +971,11 @@ def run_case(case, ctx):
 
 def classify(v):
     """Mechanistic classifiers of proposed known findings.
-    K19: building the result collection fails inside AnnotationCollection._associate_intervals_with_variant_intervals because the
+    K42: building the result collection fails inside AnnotationCollection._associate_intervals_with_variant_intervals because the
     result's chunk slices away a whole transcript / CDS / feature of a kept member, or a whole variant of a kept variant collection,
     that the haplotype association then tries to lift (EmptyLocationException).  Re-derived from the witness: kept members' blocks,
     the result window, chunk-relative overlap of a variant collection with a gene / feature collection."""
     d = v.get("detail") or {}
     if v["monitor"] in ("pos.refusal", "id.members") and k19_label(d.get("exc") or "", d.get("kept_model"), d.get("expected_window")):
-        return "K19-query-result-with-variants-and-a-sliced-away-child-cannot-be-built"
+        return "K42-query-result-with-variants-and-a-sliced-away-child-cannot-be-built"
     return None
